@@ -5,6 +5,7 @@ import numpy as np
 
 from .. import core, symbols
 from ..translate import spectral as tr_spectral
+from ..translate import spectrum as tr_spectrum
 
 ID = "C04"
 PROPS_FILE = "C04"
@@ -21,8 +22,17 @@ MODES = {"norm_compensation": 10, "reconstruction": 11, "coef_extraction": 12}
 def translate(ctx):
     """Gen/SpectralGen.v: the layout functions of exponax/_spectral.py re-translated from the source (tied to Layout/Freq.v by
     Tie/SpectralTie.v and the theorems C04_code_layout_is_model_layout / C04_code_scaling_and_slices_are_model); on failure the file
-    is replaced by a stub, so that the proof cannot use a stale text"""
-    tr_spectral.run()
+    is replaced by a stub, so that the proof cannot use a stale text.  harness/translate/spectrum.py compares fft / ifft /
+    get_fourier_coefficients with their expected text (axes = space_indices, output shape = spatial_shape, the D >= 2 inference of
+    num_points from axis -2, division by the scaling array of the requested mode); both are always attempted"""
+    errors = []
+    for name, tr in (("spectral", tr_spectral), ("spectrum", tr_spectrum)):
+        try:
+            tr.run()
+        except Exception as e:
+            errors.append(f"{name}: {type(e).__name__}: {e}")
+    if errors:
+        raise RuntimeError("; ".join(errors))
 
 
 def _ex():
